@@ -152,7 +152,7 @@ func TestC15_Plans(t *testing.T) {
 		p.Yield = rapid.SliceOfN(rapid.IntRange(0, 5), 1, 8).Draw(rt, "yield")
 		return p
 	})
-	n := harness.Pick(60, 150)
+	n := harness.Pick(60, 400)
 	seed := int(harness.Cfg().Seed % 1000003)
 	for i := 0; i < n; i++ {
 		p := gen.Example(seed*1000 + i)
